@@ -353,7 +353,11 @@ def R6(vc):
     reg = registries.ChangingRegistry()
     reg._handlers = Opaque('handlers-list')
     resource = Opaque('resource')
-    fld = vc.fin('h.field', [None, (), ('spec', 'x'), ('status', 'phase')])
+    # any path: the declared type is FieldPath = tuple[str, ...]; also paths into stanzas the essence handles specially
+    # (metadata.labels / metadata.annotations: build() purges some annotations and restores them only as extra fields)
+    fld = vc.fin('h.field', [None, (), ('spec', 'x'), ('status', 'phase'), ('metadata', 'annotations', 'other-operator.example.com/result'),
+                             ('metadata', 'labels', 'app'), ('metadata', 'generation'), ('metadata',),
+                             (vc.str('f1'),), (vc.str('f1'), vc.str('f2')), (vc.str('f1'), vc.str('f2'), vc.str('f3'))])
     h = handlers.ChangingHandler(
         id='h', fn=Opaque('fn'), param=None, errors=None, timeout=None, retries=None, backoff=None,
         selector=Opaque('selector'), labels=None, annotations=None, when=None, field=resolve(fld),
